@@ -204,7 +204,7 @@ class Session:
         # locate body braces per function via token scan of the generated function text
         inserts = {}   # (line idx, col) -> fn
         for key, info in self.fns.items():
-            if not info.has_body:
+            if not info.has_body or getattr(info, "unverified", None):
                 continue
             lo, hi = info.gen_line_start - 1, info.gen_line_end
             text = "\n".join(src_lines[lo:hi])
@@ -318,6 +318,7 @@ class Session:
         if not self.want_canary:
             self.canary, self.canary_missing, self.canaries_failed = None, [], 0
             self.canaries = {}
+            self.n_canaries = 0
             return
         cpath = os.path.join(self.dir, "gen_canary.rs")
         open(cpath, "w").write(self.canary_text())
@@ -429,6 +430,8 @@ def write_evidence(sess, prop, tier, failed, known, undecided=None, wall=0.0, ka
             known_findings_reported=known,
             undecided=undecided,
             resource_limit_retries=getattr(sess, "solo_retries", []),
+            functions_not_verified_on_this_tree=[dict(function=k, reason=v.unverified) for k, v in (sess.fns.items() if sess and hasattr(sess, "fns") else [])
+                                                 if getattr(v, "unverified", None)],
             mutation_self_test=selftest,
             kani=kani,
             extraction_log=sess.sp.log[:80] if sess and hasattr(sess, "sp") else [],
@@ -466,6 +469,10 @@ def decide(prop, sess, tier):
     labelled, fns, implicit = obligations_for(sess, prop)
     if not labelled and not implicit:
         raise Undecided("zero obligations for %s (vacuous)" % prop)
+    lost = [(k, sess.fns[k].unverified) for k in fns if getattr(sess.fns[k], "unverified", None)]
+    if lost and not failed:
+        raise Undecided("function(s) this property depends on could not be put under contract on this tree (emitted unverified): %s" %
+                        "; ".join("%s: %s" % (k, r[:160]) for k, r in lost))
     if sess.rlimit and not failed:
         hit = [r for r in sess.rlimit if r["fn"] is None or r["fn"] in fns]
         if hit:
